@@ -306,16 +306,30 @@ constexpr bool all_same()
 {
     return (std::is_same_v<T, U> && ...);
 }
+template <typename T, typename...>
+constexpr bool first_decays()
+{
+    if constexpr (std::is_reference_v<T> || std::is_void_v<T>) {
+        return false;
+    } else if constexpr (std::is_function_v<T>) {
+        return true;
+    } else {
+        return !std::is_same_v<std::decay_t<T>, T>;
+    }
+}
 /// Root-cause classes of facilities known to be stubs (computed from the case, not the result):
 ///  * is_trivially_constructible<T, Args...> never looks at Args (DESIGN 6.3 #27), and
 ///    is_trivially_copy/move_constructible<T> are built on it: every case with an argument;
-///  * common_reference<T, U> is implemented for T == U only; common_reference_with needs it
+///  * common_reference<T, U> is implemented for T == U only, as T itself (std applies the
+///    conditional-operator / common_type rules: cv-qualified scalars, arrays and functions decay);
+///    common_reference_with needs it
 ///    for T != U, and common_with needs common_reference_t<C&, T const&> for every T, U.
-constexpr char const* root_cause_class(char const* trait, std::size_t arity, bool same)
+constexpr char const* root_cause_class(char const* trait, std::size_t arity, bool same, bool first_decays)
 {
     if (str_eq(trait, "is_trivially_constructible") && arity >= 2) { return "args_ignored"; }
     if (str_eq(trait, "is_trivially_copy_constructible") || str_eq(trait, "is_trivially_move_constructible")) { return "args_ignored"; }
     if ((str_eq(trait, "common_reference") || str_eq(trait, "common_reference_with")) && arity >= 2 && !same) { return "types_differ"; }
+    if ((str_eq(trait, "common_reference") || str_eq(trait, "common_reference_with")) && arity >= 2 && same && first_decays) { return "same_type_needing_decay"; }
     if (str_eq(trait, "common_with")) { return "needs_common_reference_of_distinct_types"; }
     return nullptr;
 }
@@ -339,6 +353,7 @@ struct Cell {
     long long e{0}, s{0};     // etl / std value (type-valued results: see type_code_*)
     unsigned long long e2{0}, s2{0}; // second word (den of a ratio, high bits of a long double)
     bool nt{false};           // non-trivial by the trait's rule
+    bool expect_const{false}; // identity checks: the std value is 1 for every case by construction
     ShowFn show{nullptr};     // optional: renders both results for the violation detail
 };
 
@@ -348,6 +363,7 @@ constexpr Cell make_cell(tl<A...>)
     Cell c{};
     c.trait = Tr::name;
     c.form  = Tr::form;
+    if constexpr (requires { Tr::constant_expected; }) { c.expect_const = true; }
     {
         char const* n[] = {tname<A>::value...};
         for (std::size_t i = 0; i < sizeof...(A) && i < 4; ++i) { c.types[i] = n[i]; }
@@ -362,7 +378,7 @@ constexpr Cell make_cell(tl<A...>)
         }
         // facilities that are stubs get one root-cause class for the whole unimplemented argument class,
         // so that one defect is one (subject, class) key
-        if (char const* rc = root_cause_class(Tr::name, sizeof...(A), all_same<A...>())) {
+        if (char const* rc = root_cause_class(Tr::name, sizeof...(A), all_same<A...>(), first_decays<A...>())) {
             c.cls[0] = rc;
             c.cls[1] = c.cls[2] = c.cls[3] = nullptr;
         }
@@ -535,7 +551,7 @@ inline void run_cells(mc::Reporter& r, Cell const* cells, std::size_t n)
         }
     }
     r.count("columns");
-    if (compared != 0 && values.size() < 2) {
+    if (compared != 0 && values.size() < 2 && !cells[0].expect_const) {
         r.count("constant_columns");
         r.note("constant column (std yields one value over the whole case list): " + subject);
     }
